@@ -14,6 +14,7 @@ import (
 //   run:cropN-credit:day:more-than-uptake+fixation   ΔPESUM of a crop day exceeds that day's ΔAUFNASUM + ΔNFIXSUM
 //   run:cropN-credit:day:less-than-uptake+fixation   ΔPESUM falls short by more than the N handed to the organic pools
 //   run:cropN-credit:day:differs                     (no dead roots that day) ΔPESUM ≠ ΔAUFNASUM + ΔNFIXSUM − organic-pool gain
+//   run:cropN-credit:day:uptake-of-an-earlier-day-credited-again  PE != 0 in a layer below today's reach of the crop
 //   run:no-crop:uptake-booked / run:no-crop:uptake-handed-to-transport / run:no-crop:cropN-changes
 //   run:boundary:partial-reset:<pair>                one of (DSUMM,UMS) / (NH4Sum,NH4UMS) changed between two days, the other not zeroed
 //   run:boundary:changed:<name>                      a counter changed between day end and the next sub-step loop
@@ -42,6 +43,11 @@ func c07CreditDay(c *vh.Ctx, run *nRun, i int, payload func() interface{}) {
 		c.Count("run:crop-day-credit-checked")
 		if d.Legume && d.Nfix > 0 {
 			c.Count("run:crop-day-credit-checked:fixing-legume")
+		}
+		if sb := d.Subs; len(sb) > 0 && sb[0].PEBelowReach > 0 {
+			// an uptake that PhytoOut did not compute today (it works on the layers above min(root depth, groundwater
+			// table)) is an uptake of an earlier day: it is credited a second time
+			c.Violate("search", "run:cropN-credit:day:uptake-of-an-earlier-day-credited-again", fmt.Sprintf("%s (%s): the transport routine credits %.9g kg N/ha of uptake from layers below the crop's reach of today (layer %d and deeper: root depth / groundwater table); the crop routine computes no uptake there today, the amounts are those of an earlier day", d.Date, d.Crop, sb[0].PEBelowReach, sb[0].Reach+1), payload())
 		}
 		what := fmt.Sprintf("%s (%s): crop N (PESUM) changes by %.9g kg N/ha, uptake of the day ΔAUFNASUM = %.9g, fixation of the day ΔNFIXSUM = %.9g, N handed to the organic pools %.9g", d.Date, d.Crop, dP, dU, dF, dI)
 		switch {
@@ -157,5 +163,28 @@ func runAndEval(c *vh.Ctx, p *proj.Project, bucket string, eval func(c *vh.Ctx, 
 	}
 	for i := range run.Days {
 		eval(c, run, i)
+	}
+}
+
+// risingTableRuns: a groundwater table that swings between a high and a low level over the year (polygon file,
+// GH != GL: lowest around 9 July, rising until January) under crops whose roots are below the high level by then —
+// the layers the crop reaches shrink from day to day while it still takes up N (the uptake array must not keep
+// yesterday's entries for the layers that dropped out).
+func risingTableRuns(c *vh.Ctx, runs int) {
+	for k := 0; k < runs; k++ {
+		r := c.Rng.Fork()
+		p := proj.Gen(r, fmt.Sprintf("rt%d", k), proj.Opt{Management: true, MinLayers: 12, Years: 2, Legumes: k%2 == 0})
+		p.Cfg["GroundWaterFrom"] = "polygonfile"
+		p.GH = r.Range(2, 5)
+		p.GL = r.Range(8, 12)
+		p.RootDepth = r.Range(10, 12)
+		steerNitroProject(p, false)
+		runAndEval(c, p, "run:rising-groundwater-simulations", func(c *vh.Ctx, run *nRun, i int) {
+			c07Day(c, run, i)
+			if d := run.Days[i]; i > 0 && d.CropDay && run.Days[i-1].CropDay && len(d.Subs) > 0 && len(run.Days[i-1].Subs) > 0 &&
+				d.Subs[0].Reach < run.Days[i-1].Subs[0].Reach && run.Days[i-1].Subs[0].SumPE > 0 {
+				c.Count("run:crop-day-on-which-the-reach-of-the-crop-shrinks")
+			}
+		})
 	}
 }
